@@ -265,6 +265,89 @@ class H2(Case):
         return obs
 
 
+class _FrozenFieldSystem(oqupy.TimeDependentSystemWithField):
+    """real TimeDependentSystemWithField.__init__ on a dummy Hamiltonian; field-independent symbolic half-step
+    propagators handed in (the field part of the mean-field loop is C09's subject)"""
+
+    def __init__(self, d, P1, P2):
+        super().__init__(lambda t, a: np.zeros((d, d)) + 0.0 * t)
+        self._P1, self._P2 = P1, P2
+
+    def get_propagators(self, dt, start_time, subdiv_limit, epsrel):
+        return lambda step, field, field_derivative: (self._P1[step], self._P2[step])
+
+
+class H2F(Case):
+    """compute_dynamics_with_field (its own copy of the step loop) with a control_list: one symbolic control per
+    system (symbolic step 0..N, symbolic side); frozen field (field_eom == 0), field-independent propagators."""
+    functions = ("system_dynamics.compute_dynamics_with_field", "system_dynamics._compute_dynamics_input_parse",
+                 "system_dynamics._apply_system_superoperator", "Control.add_single", "Control.get_controls",
+                 "MeanFieldDynamics.__init__", "MeanFieldSystem.__init__")
+    stubs = ("TimeDependentSystemWithField.get_propagators -> field-independent symbolic half-step propagators",
+             "field equation of motion == 0 (frozen field)")
+    env = ENV_CT
+    timeout_s = 300
+
+    def __init__(self, nsys, N, ctrls, bond=1, record_all=True, start=0.0):
+        self.nsys, self.N, self.ctrls, self.bond, self.record_all, self.start = nsys, N, ctrls, bond, record_all, start
+        self.id = "H2F/with_field_sys%d_N%d_%s_b%d_t%s%s" % (nsys, N, ctrls, bond, start, "" if record_all else "_last")
+        self.bounds = {"d": 2, "systems": nsys, "N": N, "controls per system": ctrls, "bond": bond, "record_all": record_all,
+                       "start_time": start}
+
+    def run(self, inp):
+        from checks.c03 import build_pt
+        N, d, D, dt = self.N, 2, 4, 0.1
+        systems, pts, envs, props, rho0s, controls, regs_all = [], [], [], [], [], [], []
+        for k in range(self.nsys):
+            pt, Meff, caps = build_pt(inp, "e%d" % k, d, N, self.bond, 4, False, dt=dt)
+            P1 = [lib.gen_prop(inp, "p%d_%d" % (k, j), d) for j in range(N)]
+            P2 = [lib.gen_prop(inp, "q%d_%d" % (k, j), d) for j in range(N)]
+            systems.append(_FrozenFieldSystem(d, P1, P2))
+            pts.append(pt)
+            envs.append((Meff, caps))
+            props.append((P1, P2))
+            rho0s.append(inp.arr("r%d" % k, (d, d)))
+            control = Control(d)
+            regs = []
+            for i, kd in enumerate(self.ctrls):
+                sstep = sym_int(inp, "s%d_%d" % (k, i), 0, N)
+                post = inp.bool("post%d_%d" % (k, i))
+                C = inp.arr("C%d_%d" % (k, i), (D, D))
+                for (s2, p2, _) in regs:
+                    inp.assume(_neg(all_of([sstep == s2, SB(sym.tob(post) == sym.tob(p2)) if inp.symbolic else post == p2])))
+                t = sstep if kd == "i" else near_time(inp, "t%d_%d" % (k, i), sstep, self.start, dt)
+                with _quiet():
+                    control.add_single(t, C, post=post)
+                regs.append((sstep, post, C))
+            controls.append(control)
+            regs_all.append(regs)
+        mfs = oqupy.MeanFieldSystem(systems, field_eom=lambda t, states, field: 0.0 + 0.0j)
+        with _quiet():
+            dyn = sd.compute_dynamics_with_field(mfs, initial_field=0.25 + 0.5j, process_tensor_list=pts, initial_state_list=rho0s,
+                                                 start_time=self.start, control_list=controls, record_all=self.record_all,
+                                                 progress_type="silent")
+        obs = []
+        for k in range(self.nsys):
+            states = list(dyn.system_dynamics[k]._states)
+            pre, post = {}, {}
+            for (sstep, p, C) in regs_all[k]:
+                tgt = post if _truth(p) else pre
+                cs = as_int(sstep)
+                tgt[cs] = C if cs not in tgt else C @ tgt[cs]
+            P1, P2 = props[k]
+            steps = list(range(N + 1)) if self.record_all else [N]
+            obs.append(Ob.holds("system %d: number of returned states" % k, len(states) == len(steps), key="count"))
+            for idx, n in enumerate(steps[:len(states)]):
+                exp = lib.oracle_pt_dynamics(rho0s[k], [envs[k]], P1, P2, n, pre, post).reshape(d, d)
+                obs.append(ob_eq_poly(inp, "system %d state at step %d == evolution with each control applied once, pre before / post after the record" % (k, n),
+                                      states[idx], exp, key="state"))
+        times = list(dyn.times)
+        want = [self.start + n * dt for n in (range(N + 1) if self.record_all else [N])]
+        obs.append(Ob.holds("time labels", len(times) == len(want) and all(abs(float(a) - b) <= 1e-12 for a, b in zip(times, want)),
+                            key="time_label"))
+        return obs
+
+
 # ------------------------------------------------------------------------------------------
 # H3  chains
 # ------------------------------------------------------------------------------------------
@@ -448,6 +531,7 @@ def cases(tier):
     cs += [H2(0, 2, "i"), H2(1, 2, "i"), H2(1, 3, "f", start=0.3), H2(1, 2, "ii"), H2(1, 2, "if", bond=1), H2(1, 2, "ii", stack=True, rank=3)]
     cs += [H2(0, 2, "i", record_all=False), H2(1, 3, "i", record_all=False), H2(1, 2, "f", start=0.3, record_all=False),
            H2(2, 2, "ii", bond=1, record_all=False)]
+    cs += [H2F(1, 2, "i"), H2F(2, 2, "i"), H2F(1, 3, "f", start=0.3), H2F(1, 2, "i", record_all=False), H2F(1, 2, "ii", bond=2)]
     # ---- H3 chains
     cs += [H3a(1, 2, "claim"), H3a(2, 2, "claim"), H3a(2, 2, "stack_order"), H3a(3, 1, "stack_order")]
     cs += [H3b(1, 2, "claim"), H3b(2, 1, "claim", bonds=(1, 1), pair=False), H3b(2, 1, "stack_order", bonds=(1, 1), pair=False)]
